@@ -263,13 +263,17 @@ fn fam_format_boxed(ctx: &Ctx) {
     if !ctx.want("radix_format_boxed") {
         return;
     }
-    let lens: Vec<usize> = if ctx.thorough() { (1..=140).collect() } else { vec![1, 2, 3, 4, 5, 6, 31, 32, 33, 34, 35, 38, 42, 47, 56, 64, 65, 79, 128, 129, 140] };
+    let lens: Vec<usize> = if ctx.thorough() { (1..=140).collect() } else { vec![1, 2, 3, 4, 5, 6, 31, 32, 33, 34, 35, 38, 42, 47, 56, 62, 63, 64, 65, 79, 94, 95, 96, 126, 127, 128, 129, 140] };
     for n in lens {
         let wname = format!("Boxed<{n}>");
         let radices: Vec<u32> = if n <= 6 || ctx.thorough() { (2..=36).collect() } else { (2..=36).collect() };
         let jobs: Vec<(u32, BigUint)> = radices.iter().flat_map(|&r| {
             let vs = fmt_values(n, r, ctx);
-            let vs = if n > 6 && !ctx.thorough() { vs.into_iter().rev().step_by(if n > 40 { 9 } else { 5 }).collect::<Vec<_>>() } else { vs };
+            let mut vs = if n > 6 && !ctx.thorough() { vs.into_iter().rev().step_by(if n > 40 { 9 } else { 5 }).collect::<Vec<_>>() } else { vs };
+            // the all-ones value and 2^(BITS-1) survive every thinning: the large-divisor encoder path (32 + 31k limbs)
+            // only misbehaves when the top bits are set
+            vs.push(pow2(64 * n) - 1u32);
+            vs.push(pow2(64 * n - 1));
             vs.into_iter().map(move |v| (r, v))
         }).collect();
         ctx.par_for("radix_format_boxed", &wname, jobs.len(), |i, l| {
